@@ -490,3 +490,22 @@ package server
 //@ ensures (old(lc.status) != 1 || old(req.Term) != old(lc.term)) ==> err != nil && lc.status == old(lc.status) && lc.quorumAckTracker == old(lc.quorumAckTracker) && lc.replicationFactor == old(lc.replicationFactor)
 //@ ensures err != nil ==> lc.status == old(lc.status)
 //@ modifies *
+
+// ---------------------------------------------------------------- notification subscribers (C17)
+
+//@ func checkStatusIsLeader(actual) (err)
+//@ property C17
+//@ ensures err == nil <==> actual == 3
+//@ modifies nothing
+
+// GetNotifications: only a leader with notifications enabled serves subscribers; a new
+// subscriber (no start offset) is positioned with an empty batch on exactly the commit
+// offset (never on an offset that is not committed yet), and the dispatcher then starts
+// right after that offset; a resuming subscriber starts right after the offset it names.
+//
+//@ func leaderController.GetNotifications(lc, ctx, req, cb)
+//@ property C17
+//@ requires req != nil && cb != nil && lc.log != nil && (lc.quorumAckTracker != nil ==> qInv(as(lc.quorumAckTracker, *quorumAckTracker)))
+//@ assert at call OnNext#0: old(lc.status) == 3 && old(lc.termOptions.NotificationsEnabled) && req.StartOffsetExclusive == nil && t != nil && t.Shard == lc.shardId && t.Offset == as(old(lc.quorumAckTracker), *quorumAckTracker).commitOffset.v && len(t.Notifications) == 0
+//@ assert at call DoWithLabels#0: old(lc.status) == 3 && old(lc.termOptions.NotificationsEnabled) && (req.StartOffsetExclusive != nil ==> offsetExclusive == *req.StartOffsetExclusive) && (req.StartOffsetExclusive == nil ==> offsetExclusive == as(old(lc.quorumAckTracker), *quorumAckTracker).commitOffset.v)
+//@ modifies *
